@@ -286,6 +286,13 @@ class AWSGlueExecutor(Executor):
         self.is_running = False
         self._monitor_thread = threading.Thread(target=self._monitor, daemon=False)
         self._submit_thread = threading.Thread(target=self._submission_thread, daemon=False)
+        # The decisions of the two threads to exit, and of `_start()` to (re)start them, are made
+        # under this lock, so that a job submitted while a thread is exiting is not left behind.
+        self._threads_lock = threading.Lock()
+        self._monitor_active = False
+        self._submit_active = False
+        # Jobs taken out of `pending_glue_jobs` that are not in `running_glue_jobs` yet.
+        self._num_submitting = 0
         self.pending_glue_jobs: deque["Job"] = deque()
         self.running_glue_jobs: dict[str, "Job"] = OrderedDict()
         self.preexisting_glue_jobs: dict[str, str] = {}  # Job hash -> Job ID
@@ -347,16 +354,21 @@ class AWSGlueExecutor(Executor):
         """
         Starts monitoring thread
         """
-        if not self.is_running:
-            self.is_running = True
+        with self._threads_lock:
+            if not self.is_running:
+                self.is_running = True
 
-        if not self._monitor_thread.is_alive():
-            self._monitor_thread = threading.Thread(target=self._monitor, daemon=False)
-            self._monitor_thread.start()
+            if not self._monitor_active:
+                self._monitor_active = True
+                self._monitor_thread = threading.Thread(target=self._monitor, daemon=False)
+                self._monitor_thread.start()
 
-        if not self._submit_thread.is_alive():
-            self._submit_thread = threading.Thread(target=self._submission_thread, daemon=False)
-            self._submit_thread.start()
+            if not self._submit_active:
+                self._submit_active = True
+                self._submit_thread = threading.Thread(
+                    target=self._submission_thread, daemon=False
+                )
+                self._submit_thread.start()
 
     def _monitor(self) -> None:
         """Thread for monitoring running AWS Glue jobs."""
@@ -364,7 +376,21 @@ class AWSGlueExecutor(Executor):
         assert self.glue_job_name
 
         try:
-            while self.is_running and (self.running_glue_jobs or self.pending_glue_jobs):
+            while True:
+                # Decide to exit under the lock: a job submitted from now on will find the
+                # monitor not active and start a new one, instead of being left behind.
+                with self._threads_lock:
+                    if not (
+                        self.is_running
+                        and (
+                            self.running_glue_jobs
+                            or self.pending_glue_jobs
+                            or self._num_submitting
+                        )
+                    ):
+                        self._monitor_active = False
+                        break
+
                 # Process running glue jobs
                 jobs = glue_describe_jobs(
                     list(self.running_glue_jobs.keys()),
@@ -378,9 +404,9 @@ class AWSGlueExecutor(Executor):
                 time.sleep(self.interval)
 
         except Exception as error:
+            with self._threads_lock:
+                self._monitor_active = False
             self._scheduler.reject_job(None, error)
-
-        self.stop()
 
     def _submission_thread(self) -> None:
         """
@@ -395,26 +421,45 @@ class AWSGlueExecutor(Executor):
         """
         assert self._scheduler
         try:
-            while self.is_running and self.pending_glue_jobs:
+            while True:
+                # Thread can exit when there are no more pending jobs. That's okay,
+                # as new job submissions will restart it.
+                with self._threads_lock:
+                    if not (self.is_running and self.pending_glue_jobs):
+                        self._submit_active = False
+                        break
+
                 fail_counter = 0
-                while fail_counter < 5 and self.pending_glue_jobs:
-                    job = self.pending_glue_jobs.popleft()
-                    job_id = self.submit_pending_job(job)
+                while fail_counter < 5:
+                    with self._threads_lock:
+                        if not self.pending_glue_jobs:
+                            break
+                        job = self.pending_glue_jobs.popleft()
+                        self._num_submitting += 1
+                    try:
+                        job_id = self.submit_pending_job(job)
+                    except BaseException:
+                        with self._threads_lock:
+                            self._num_submitting -= 1
+                        raise
+                    with self._threads_lock:
+                        self._num_submitting -= 1
+                        if job_id is None:
+                            self.pending_glue_jobs.append(job)
+                        else:
+                            self.running_glue_jobs[job_id] = job
 
                     if job_id is None:
                         fail_counter += 1
-                        self.pending_glue_jobs.append(job)
                     else:
-                        self.running_glue_jobs[job_id] = job
                         fail_counter = 0
 
                 time.sleep(self.retry_interval)
 
         except Exception as error:
+            with self._threads_lock:
+                self._submit_active = False
             self._scheduler.reject_job(None, error)
-
-        # Thread can exit when there are no more pending jobs. That's okay,
-        # as new job submissions will restart it.
 
     def stop(self) -> None:
         self.is_running = False
